@@ -54,6 +54,7 @@ class W:
     ph: Dict[str, Any] = {}  # placeholders the renderer introduced: name -> symbolic value
     n = 0
     concrete = False  # True: instantiate templates with literals (replay / pre-warm)
+    no_canon = False  # True: every rendered symbolic leaf gets a fresh placeholder (harnesses that never read the text)
     problems: List[str] = []
 
 
@@ -88,7 +89,7 @@ def sym_repr(v):
     Contract: the repr of an int leaf is an atom expression that evaluates to that value and whose token is stable."""
     if not is_symbolic(v):
         return _orig_repr(v)
-    name = canon_name(v)
+    name = None if W.no_canon else canon_name(v)
     if name is not None:
         return name
     name = f"V{W.n}_"
@@ -537,7 +538,7 @@ def make_config(root, cli, nproc=None):
 
 
 def plugin_session(files, *, cli=None, env_flags=None, tty=False, ci_var=None, pycharm=False, nproc=None, answers=(),
-                   xfail=(), pyproject=None, extra_globals=None, body_hook=None, storage_files=None, shortcut_args=None) -> PluginResult:
+                   xfail=(), pyproject=None, extra_globals=None, body_hook=None, storage_files=None, shortcut_args=None, finish=True) -> PluginResult:
     """D-plugin: real pytest_configure -> (real autouse fixture around every test_* function) -> real
     pytest_sessionfinish, with stub config/request/session objects.  File writes are captured in memory."""
     import pytest
@@ -679,10 +680,15 @@ def plugin_session(files, *, cli=None, env_flags=None, tty=False, ci_var=None, p
                 body_hook(res)
         finally:
             sess = types.SimpleNamespace(config=cfg)
-            try:
-                P.pytest_sessionfinish(sess, 0)
-            except Exception as e:
-                res.finish_error = e
+            if finish:
+                try:
+                    P.pytest_sessionfinish(sess, 0)
+                except Exception as e:
+                    res.finish_error = e
+            else:
+                from inline_snapshot._global_state import leave_snapshot_context as _leave
+
+                _leave()
     finally:
         os.chdir(cwd)
         with NoTracing():
@@ -744,3 +750,39 @@ def prewarm(*calls):
                 pass
     finally:
         W.concrete = False
+
+
+# ---------------------------------------------------------------- R1: the real plugin in a real pytest process
+
+
+def real_pytest(files: Dict[str, str], args: List[str], env: Optional[Dict[str, str]] = None, stdin: bytes = b"", storage_files=None, timeout=120):
+    """Run `python -m pytest <args>` in a fresh temp project with the *unmodified* plugin; returns (returncode, stdout,
+    files after the run, storage listing).  No stub of any kind is involved."""
+    import shutil
+    import subprocess
+    import tempfile
+
+    d = pathlib.Path(tempfile.mkdtemp(prefix="r1-", dir=scratch_dir()))
+    try:
+        for name, text in files.items():
+            p = d / name
+            p.parent.mkdir(parents=True, exist_ok=True)
+            p.write_bytes(text.encode("utf-8"))
+        if storage_files:
+            sd = d / ".inline-snapshot" / "external"
+            sd.mkdir(parents=True)
+            for n_, data in storage_files.items():
+                (sd / n_).write_bytes(data)
+        e = {k: v for k, v in os.environ.items() if k not in ("CI", "GITHUB_ACTIONS", "INLINE_SNAPSHOT_DEFAULT_FLAGS", "PYTEST_CURRENT_TEST", "PYTHONHASHSEED")}
+        e["TERM"] = "unknown"
+        e["COLUMNS"] = "100"
+        e["PYTHONPATH"] = "/repo/src"
+        if env:
+            e.update(env)
+        p = subprocess.run([sys.executable, "-m", "pytest", "-p", "no:cacheprovider", "-q", *args], cwd=d, env=e, input=stdin, capture_output=True, timeout=timeout)
+        after = {name: (d / name).read_bytes().decode("utf-8") for name in files}
+        sd = d / ".inline-snapshot" / "external"
+        storage = sorted(x.name for x in sd.iterdir() if x.name != ".gitignore") if sd.exists() else []
+        return p.returncode, p.stdout.decode("utf-8", "replace") + p.stderr.decode("utf-8", "replace"), after, storage
+    finally:
+        shutil.rmtree(d, ignore_errors=True)
